@@ -69,6 +69,13 @@ def peg_info(case, mm, out):
         dump = pegdump.dump_metamodel(mm)
         out["peg_dump"] = dump.to_json()
         out["peg_table"] = dump.oracle_table(case["peg_text"])
+        if case.get("want_mm"):
+            import mmdump
+            mi = mmdump.dump_mm(mm, dump)
+            out["mm_info"] = mi
+            out["peg_gtable"] = mmdump.group_table(dump, mi, case["peg_text"])
+            out["mm_auto"] = bool(mm.auto_init_attributes)
+            out["mm_use_grp"] = bool(mm.use_regexp_group)
     except pegdump.Unsupported as e:
         out["peg_unsupported"] = str(e)
 
